@@ -4,6 +4,7 @@ import (
 	"bytes"
 	"encoding/hex"
 	"fmt"
+	"github.com/nspcc-dev/neo-go/pkg/crypto/hash"
 	"strings"
 
 	"github.com/nspcc-dev/neo-go/pkg/core/mpt"
@@ -1059,6 +1060,28 @@ func (c *c10) proof(i int, op C10Op) *sim.Violation {
 			}
 		} else {
 			c.out.Probes["tampered_rejected"]++
+		}
+	}
+	// a verifier that is handed the root together with the proof (the verifyproof RPC method): the prover controls both.
+	// Elements that decode as nodes a database never holds - a hash node, the empty node - under the root they hash to:
+	// no value may come out, and the call has to return
+	if op.Tampers > 0 && c.tape.Chance(1, 4) {
+		forged := [][]byte{append([]byte{0x03}, r[:]...), {0x04}}
+		if len(proof) > 0 {
+			forged = append(forged, append([]byte{0x03}, hash.DoubleSha256(proof[0]).BytesBE()...))
+		}
+		for _, e := range forged {
+			fr := hash.DoubleSha256(e)
+			var tv []byte
+			var tok bool
+			if v := sim.Recover(func() { tv, tok = mpt.VerifyProof(fr, k, [][]byte{e}) }); v != nil {
+				v.Msg = fmt.Sprintf("step %d: VerifyProof panicked on a proof whose only element %x is not a node a database holds (root = its hash): %s", i, e[:1], v.Msg)
+				return v
+			}
+			if tok {
+				return sim.Violatef("proof-sound", "proof-sound/forged-root", "step %d: a one-element proof %x... verifies key %x to %s under the root it hashes to", i, e[:1], k, showVal(tv))
+			}
+			c.out.Probes["forged_root_proof_rejected"]++
 		}
 	}
 	if present {
